@@ -197,7 +197,7 @@ def assignments(spec, dom_n=2, arg_dom_n=None, multi_len=2, arg_multi_len=None, 
     arg_dom_n = dom_n if arg_dom_n is None else arg_dom_n
     arg_multi_len = multi_len if arg_multi_len is None else arg_multi_len
     och = [option_choices(spec, k, dom_n, multi_len, bare_none, with_null) for k in range(len(spec["opts"]))]
-    ach = argument_choices(spec, arg_dom_n, arg_multi_len, with_null, arg_extra)
+    ach = argument_choices(spec, arg_dom_n, arg_multi_len, False, arg_extra)  # with_null concerns option values only
     out = []
     for a in ach:
         for o in itertools.product(*och):
